@@ -248,6 +248,7 @@ def mutants(prog):
         ("GridAttrs: header cross-wired", "deepali.utils.simpleitk.grid", "image_grid_attributes", "origin=image.GetOrigin(), spacing=image.GetSpacing()", "origin=image.GetSpacing(), spacing=image.GetOrigin()", "T1.itk-attrs"),
         ("GridAttrs: center route sign", "deepali.utils.simpleitk.grid", "GridAttrs.__init__", "np.asanyarray(center) - np.matmul(rotation @ scaling, offset)", "np.asanyarray(center) + np.matmul(rotation @ scaling, offset)", "T1.itk-attrs"),
         ("pool: origin by floor division", G, "Grid.pool", "ks.sub(1).div(2)", "ks.sub(1).div(2).floor()", "T9.crop-family"),
+        ("GridAttrs: nearest index by truncation", "deepali.utils.simpleitk.grid", "GridAttrs.physical_space_to_index", "index: np.ndarray = np.round(self.physical_space_to_continuous_index(points))", "index: np.ndarray = self.physical_space_to_continuous_index(points) + 0.5", "T1.itk-attrs"),
     ]
     for name, mod, fn, old, new, expect in specs:
         ov = source_sub(prog, mod, fn, old, new)
